@@ -10,13 +10,20 @@
 (*        "/"), or a true absolute spelling of the table location as       *)
 (*        given / of the canonical root / of the outside tree / of the     *)
 (*        sibling t2 / of the workspace (<= AbsDepth components).          *)
-(* Two states per case: phase 0 = the case, phase 1 = the case with all    *)
-(* verdicts computed (so the evaluation is spread over TLC's workers; all  *)
-(* invariants read the phase-1 record).                                    *)
 (*                                                                         *)
-(* Abstract world: "/w" is the workspace; "/w/t" the real table directory; *)
-(* "/w/t2" a sibling whose name has the root's name as a string prefix;    *)
-(* "/w/out", "/w/f", "/w/data", "/w/metadata" sentinel trees outside.      *)
+(* Spec     : two states per case: phase 0 = the case, phase 1 = the case  *)
+(*            with all verdicts computed (so the evaluation is spread over *)
+(*            TLC's workers; the invariants read the phase-1 record).      *)
+(* CompSpec : one state holding, for the defect / repair / every code      *)
+(*            variant, whether the theorems hold or fail on the small grid *)
+(*            (anti-vacuity and "fails with the defect, holds with the     *)
+(*            repair"); invariant CompanionOK.                             *)
+(*                                                                         *)
+(* Abstract world: "/" is the scratch directory, "/p1/p2/p3/w" the         *)
+(* workspace (deep enough that <= 4 ".." from anything used never leave    *)
+(* "/p1"); ".../w/t" the real table directory; ".../w/t2" a sibling whose  *)
+(* name has the root's name as a string prefix; ".../w/out", ".../w/f",    *)
+(* ".../w/data", ".../w/metadata" sentinel trees outside the root.         *)
 (***************************************************************************)
 EXTENDS PathRes, Json, IOUtils, SequencesExt, FiniteSetsExt
 
@@ -24,8 +31,8 @@ CONSTANTS MaxDepth, AbsDepth,
           VRealpath, VContain, VArrowAbs, VListRaw, VFollow,     \* the variant (see PathRes)
           VRootGuard                                             \* FALSE = the code as it is
 
-V == [realpath |-> VRealpath, contain |-> VContain, arrowAbs |-> VArrowAbs, listRaw |-> VListRaw, follow |-> VFollow,
-      rootGuard |-> VRootGuard]
+VCfg == [realpath |-> VRealpath, contain |-> VContain, arrowAbs |-> VArrowAbs, listRaw |-> VListRaw, follow |-> VFollow,
+         rootGuard |-> VRootGuard]
 
 VARIABLE c
 
@@ -35,13 +42,13 @@ RelPres  == {"rel", "slash"}
 AbsPres  == {"base", "canon", "out", "sib", "ws"}
 
 (* ------------------------------ layouts ------------------------------ *)
-A(names) == LocStr(names)          \* absolute string
-R(names) == JoinNames(names)       \* relative string
-W == <<"w">>
-T == <<"w", "t">>
+W == <<"p1", "p2", "p3", "w">>
+T == W \o <<"t">>
+WA(names) == LocStr(W \o names)    \* absolute string below the workspace
+R(names)  == JoinNames(names)      \* relative string
 
 Common ==
-  { <<<<>>, DirNode>>, <<W, DirNode>>,
+  { <<<<>>, DirNode>>, <<<<"p1">>, DirNode>>, <<<<"p1", "p2">>, DirNode>>, <<<<"p1", "p2", "p3">>, DirNode>>, <<W, DirNode>>,
     <<W \o <<"f">>, FileNode>>,
     <<W \o <<"data">>, DirNode>>, <<W \o <<"data", "f">>, FileNode>>,
     <<W \o <<"metadata">>, DirNode>>, <<W \o <<"metadata", "f">>, FileNode>>,
@@ -56,11 +63,11 @@ Common ==
 
 \* A: table location given directly; absolute link targets; link to a directory inside
 LinksA ==
-  { <<T \o <<"ln_out">>,  LinkNode(A(<<"w", "out">>))>>,
-    <<T \o <<"ln_outf">>, LinkNode(A(<<"w", "out", "f">>))>>,
+  { <<T \o <<"ln_out">>,  LinkNode(WA(<<"out">>))>>,
+    <<T \o <<"ln_outf">>, LinkNode(WA(<<"out", "f">>))>>,
     <<T \o <<"ln_in">>,   LinkNode(R(<<"data", "sub">>))>>,
-    <<T \o <<"data", "ln_out">>,  LinkNode(A(<<"w", "out">>))>>,
-    <<T \o <<"data", "ln_outf">>, LinkNode(A(<<"w", "out", "f">>))>>,
+    <<T \o <<"data", "ln_out">>,  LinkNode(WA(<<"out">>))>>,
+    <<T \o <<"data", "ln_outf">>, LinkNode(WA(<<"out", "f">>))>>,
     <<T \o <<"data", "ln_in">>,   LinkNode(R(<<"sub">>))>> }
 \* B: table location is a (relative) symlink to the real directory; relative link targets with "..";
 \*    links to the root itself (through the root symlink, and "..")
@@ -68,29 +75,29 @@ LinksB ==
   { <<W \o <<"lnroot">>,  LinkNode(R(<<"t">>))>>,
     <<T \o <<"ln_out">>,  LinkNode(R(<<"..", "out">>))>>,
     <<T \o <<"ln_outf">>, LinkNode(R(<<"..", "out", "f">>))>>,
-    <<T \o <<"ln_in">>,   LinkNode(A(<<"w", "lnroot">>))>>,
+    <<T \o <<"ln_in">>,   LinkNode(WA(<<"lnroot">>))>>,
     <<T \o <<"data", "ln_out">>,  LinkNode(R(<<"..", "..", "out">>))>>,
     <<T \o <<"data", "ln_outf">>, LinkNode(R(<<"..", "ln_outf">>))>>,
     <<T \o <<"data", "ln_in">>,   LinkNode(R(<<"..">>))>> }
 \* C: location spelled with a trailing slash; chains of links; a dangling link to the outside;
 \*    a link into the sibling-prefix directory
 LinksC ==
-  { <<T \o <<"ln_hop">>,  LinkNode(A(<<"w", "out">>))>>,
+  { <<T \o <<"ln_hop">>,  LinkNode(WA(<<"out">>))>>,
     <<T \o <<"ln_out">>,  LinkNode(R(<<"ln_hop">>))>>,
-    <<T \o <<"ln_outf">>, LinkNode(A(<<"w", "out", "missing">>))>>,
+    <<T \o <<"ln_outf">>, LinkNode(WA(<<"out", "missing">>))>>,
     <<T \o <<"ln_in">>,   LinkNode(R(<<"data", "ln_in">>))>>,
     <<T \o <<"data", "ln_in">>,   LinkNode(R(<<"sub">>))>>,
     <<T \o <<"data", "ln_out">>,  LinkNode(R(<<"..", "ln_out">>))>>,
-    <<T \o <<"data", "ln_outf">>, LinkNode(A(<<"w", "t2", "f">>))>> }
+    <<T \o <<"data", "ln_outf">>, LinkNode(WA(<<"t2", "f">>))>> }
 \* D: location is an absolute symlink, spelled with a "." component; links to the sibling-prefix
 \*    directory, to a file one level up, to the workspace; inside targets spelled through the root link
 LinksD ==
-  { <<W \o <<"lnroot">>,  LinkNode(A(<<"w", "t">>))>>,
-    <<T \o <<"ln_out">>,  LinkNode(A(<<"w", "t2">>))>>,
-    <<T \o <<"ln_outf">>, LinkNode(A(<<"w", "f">>))>>,
-    <<T \o <<"ln_in">>,   LinkNode(A(<<"w", "t", "data">>))>>,
-    <<T \o <<"data", "ln_in">>,   LinkNode(A(<<"w", "lnroot", "metadata">>))>>,
-    <<T \o <<"data", "ln_out">>,  LinkNode(A(<<"w">>))>>,
+  { <<W \o <<"lnroot">>,  LinkNode(WA(<<"t">>))>>,
+    <<T \o <<"ln_out">>,  LinkNode(WA(<<"t2">>))>>,
+    <<T \o <<"ln_outf">>, LinkNode(WA(<<"f">>))>>,
+    <<T \o <<"ln_in">>,   LinkNode(WA(<<"t", "data">>))>>,
+    <<T \o <<"data", "ln_in">>,   LinkNode(WA(<<"lnroot", "metadata">>))>>,
+    <<T \o <<"data", "ln_out">>,  LinkNode(WA(<<>>))>>,
     <<T \o <<"data", "ln_outf">>, LinkNode(R(<<"ln_out", "f">>))>> }
 
 FS_A == FsOf(Common \cup LinksA)
@@ -99,10 +106,10 @@ FS_C == FsOf(Common \cup LinksC)
 FS_D == FsOf(Common \cup LinksD)
 FS(l) == CASE l = "A" -> FS_A [] l = "B" -> FS_B [] l = "C" -> FS_C [] l = "D" -> FS_D
 
-Base(l) == CASE l = "A" -> A(<<"w", "t">>)
-             [] l = "B" -> A(<<"w", "lnroot">>)
-             [] l = "C" -> A(<<"w", "t">>) \o <<SEP>>
-             [] l = "D" -> <<SEP, "w", SEP, ".", SEP, "lnroot">>
+Base(l) == CASE l = "A" -> WA(<<"t">>)
+             [] l = "B" -> WA(<<"lnroot">>)
+             [] l = "C" -> WA(<<"t">>) \o <<SEP>>
+             [] l = "D" -> LocStr(<<"p1", "p2", "p3">>) \o <<SEP, ".", SEP, "w", SEP, "lnroot">>
 
 ASSUME \A l \in Layouts : CanonRoot(FS(l), Base(l)) = T
 
@@ -110,7 +117,8 @@ ASSUME \A l \in Layouts : CanonRoot(FS(l), Base(l)) = T
 \* seeded sample of deeper cases chosen by the harness (one JSON record per line; may be empty)
 SampleSeq == ndJsonDeserialize(IOEnv.VERIF_SAMPLE)
 
-Mk(l, p, cs, t) == [ph |-> 0, x |-> [lay |-> l, pre |-> p, comps |-> cs, trail |-> t], o |-> <<>>]
+Case(l, p, cs, t) == [lay |-> l, pre |-> p, comps |-> cs, trail |-> t]
+Mk(l, p, cs, t) == [ph |-> 0, x |-> Case(l, p, cs, t), o |-> <<>>]
 
 RECURSIVE CompsStr(_)
 CompsStr(cs) == IF cs = <<>> THEN <<>>
@@ -118,10 +126,10 @@ CompsStr(cs) == IF cs = <<>> THEN <<>>
                      \o (IF Tail(cs) = <<>> THEN <<>> ELSE <<SEP>> \o CompsStr(Tail(cs)))
 
 AbsPrefix(l, p) == CASE p = "base"  -> Base(l)
-                     [] p = "canon" -> A(T)
-                     [] p = "out"   -> A(<<"w", "out">>)
-                     [] p = "sib"   -> A(<<"w", "t2">>)
-                     [] p = "ws"    -> A(W)
+                     [] p = "canon" -> LocStr(T)
+                     [] p = "out"   -> WA(<<"out">>)
+                     [] p = "sib"   -> WA(<<"t2">>)
+                     [] p = "ws"    -> WA(<<>>)
 
 PathStr(x) ==
   LET body == CompsStr(x.comps)
@@ -137,7 +145,7 @@ NodeAt(fs, base, F) ==
    kind |-> IF w.st = "ok" THEN fs[w.loc].k ELSE "none",
    inside |-> Inside(fs, base, w.loc)]
 
-Out(x) ==
+Out(x, V) ==
   LET fs == FS(x.lay)  base == Base(x.lay)  p == PathStr(x)
       res == ResolvePath(fs, base, p, V)
       arr == ArrowPath(fs, base, p, V)
@@ -169,7 +177,7 @@ Init == \/ \E l \in Layouts, p \in RelPres, k \in 0..MaxDepth, t \in BOOLEAN :
         \/ \E i \in DOMAIN SampleSeq :
              c = Mk(SampleSeq[i].lay, SampleSeq[i].pre, SampleSeq[i].comps, SampleSeq[i].trail)
 Next == /\ c.ph = 0
-        /\ c' = [ph |-> 1, x |-> c.x, o |-> Out(c.x)]
+        /\ c' = [ph |-> 1, x |-> c.x, o |-> Out(c.x, VCfg)]
 Spec == Init /\ [][Next]_c
 
 Confined         == c.ph = 1 => c.o.confined          \* C17, first sentence
@@ -178,11 +186,6 @@ EscapeRejected   == c.ph = 1 => c.o.escRejected       \* C17, second sentence
 NotMisresolved   == c.ph = 1 => c.o.notMisresolved
 ListingRoundTrip1 == c.ph = 1 => c.o.listRoundTrip
 ListServes1      == c.ph = 1 => c.o.listServes
-
-\* anti-vacuity: the grammar reaches escaping paths, accepted paths, symlinked objects ...
-\* (each of these "never" invariants must be VIOLATED)
-NeverEscaping == c.ph = 1 => ~c.o.esc
-NeverAccepted == c.ph = 1 => c.o.resRej
 
 (* ------------------------------ export ------------------------------ *)
 Exported == c.ph = 1 =>
@@ -195,4 +198,36 @@ Exported == c.ph = 1 =>
 LayoutOut(l) == [lay |-> l, base |-> Base(l), root |-> LocStr(CanonRoot(FS(l), Base(l))),
                  nodes |-> SetToSeq({[loc |-> LocStr(n), k |-> FS(l)[n].k, tgt |-> FS(l)[n].tgt] : n \in DOMAIN FS(l)})]
 ExportLayouts == JsonSerialize(IOEnv.VERIF_LAYOUTS, SetToSeq({LayoutOut(l) : l \in Layouts}))
+
+(* --------------- companion: defect / repair / variants on the small grid --------------- *)
+SmallCases == {Case(l, p, cs, t) : l \in Layouts, p \in RelPres, cs \in UNION {[1..k -> Alphabet] : k \in 0..MaxDepth}, t \in BOOLEAN}
+         \cup {Case(l, p, cs, t) : l \in Layouts, p \in AbsPres, cs \in UNION {[1..k -> Alphabet] : k \in 0..AbsDepth}, t \in BOOLEAN}
+
+Repaired == [Default EXCEPT !.rootGuard = TRUE]
+Fails(V, fields) == \E x \in SmallCases : LET o == Out(x, V) IN \E f \in fields : ~o[f]
+Holds(V, fields) == \A x \in SmallCases : LET o == Out(x, V) IN \A f \in fields : o[f]
+
+CompanionVerdict ==
+  [ \* the code as it is: the strict first sentence FAILS, and only on writes resolving to the root itself
+    asIsStrictConfinedFails   |-> Fails(Default, {"confined"}),
+    asIsFailsOnlyOnRootWrite  |-> \A x \in SmallCases : LET o == Out(x, Default) IN o.confined \/ (o.rootWrite /\ o.confinedKnown),
+    asIsOtherTheoremsHold     |-> Holds(Default, {"confinedKnown", "escRejected", "notMisresolved", "listRoundTrip", "listServes"}),
+    \* the repair modelled: everything holds
+    repairedAllHold           |-> Holds(Repaired, {"confined", "escRejected", "notMisresolved", "listRoundTrip", "listServes"}),
+    \* every code variant is caught by the theorems
+    abspathCaught             |-> Fails([Default EXCEPT !.realpath = FALSE], {"confinedKnown", "escRejected"}),
+    startswithCaught          |-> Fails([Default EXCEPT !.contain = "startswith"], {"confinedKnown", "escRejected"}),
+    noContainmentCaught       |-> Fails([Default EXCEPT !.contain = "none"], {"confinedKnown", "escRejected"}),
+    arrowAbsUnchangedCaught   |-> Fails([Default EXCEPT !.arrowAbs = TRUE], {"confinedKnown", "escRejected"}),
+    followlinksCaught         |-> Fails([Default EXCEPT !.follow = TRUE], {"confinedKnown", "listRoundTrip"}),
+    listRawBaseCaught         |-> Fails([Default EXCEPT !.listRaw = TRUE], {"listServes"}),
+    \* the grammar reaches escaping, rejected and accepted paths
+    reachesEscaping           |-> \E x \in SmallCases : Out(x, Default).esc,
+    reachesAccepted           |-> \E x \in SmallCases : ~Out(x, Default).resRej,
+    reachesRejected           |-> \E x \in SmallCases : Out(x, Default).resRej ]
+
+CompInit == c = [ph |-> 2, verdict |-> CompanionVerdict]
+CompNext == UNCHANGED c
+CompSpec == CompInit /\ [][CompNext]_c
+CompanionOK == PrintT(ToJson(c.verdict)) /\ \A f \in DOMAIN c.verdict : c.verdict[f]
 =============================================================================
